@@ -27,9 +27,10 @@ IsWithdraw(i) == St(i).op = "withdraw"
 IsCreate(i)   == St(i).op = "create"
 
 (* ---------------- C06 ---------------- *)
-C06Offer(i)    == IsDeposit(i) \/ IsCreate(i) => IF St(i).big THEN BigLaws!DepositWithinOffer(St(i)) ELSE Laws!DepositWithinOffer(St(i))
+(* (st.neg: some recorded movement had the wrong sign, e.g. reserves shrinking on a deposit; amounts are logged as magnitudes) *)
+C06Offer(i)    == IsDeposit(i) \/ IsCreate(i) => ~St(i).neg /\ (IF St(i).big THEN BigLaws!DepositWithinOffer(St(i)) ELSE Laws!DepositWithinOffer(St(i)))
 C06Rate(i)     == IsDeposit(i) => IF St(i).big THEN BigLaws!DepositRateFair(St(i)) ELSE Laws!DepositRateFair(St(i))
-C06Share(i)    == IsWithdraw(i) => IF St(i).big THEN BigLaws!WithdrawWithinShare(St(i)) ELSE Laws!WithdrawWithinShare(St(i))
+C06Share(i)    == IsWithdraw(i) => ~St(i).neg /\ (IF St(i).big THEN BigLaws!WithdrawWithinShare(St(i)) ELSE Laws!WithdrawWithinShare(St(i)))
 C06Last(i)     == IsWithdraw(i) => IF St(i).big THEN BigLaws!LastShareTakesAll(St(i)) ELSE Laws!LastShareTakesAll(St(i))
 C06PerShare(i) == IsDeposit(i) \/ IsWithdraw(i) => IF St(i).big THEN BigLaws!PerShareNotDecreasing(St(i)) ELSE Laws!PerShareNotDecreasing(St(i))
 C06Range(i)    == St(i).hasPrice => LLe(St(i).mn, St(i).price) /\ LLe(St(i).price, St(i).mx)
